@@ -44,6 +44,10 @@ inductive Stmt where
   | seq (a b : Stmt)
   /-- straight-line, state-preserving instructions -/
   | simple (is : List Instr)
+  /-- an expression with internal jumps (`and` / `or`, `a if c else b`, chained comparisons, the
+  default of a macro argument): straight-line instructions and (conditional) jumps whose targets
+  are given *relative to the start* of the expression and stay within it -/
+  | flat (is : List Instr)
   /-- `if` with an empty false body; `ncond` instructions of the condition -/
   | ifS (ncond : Nat) (thn : Stmt)
   /-- `if` with a non-empty false body (`elif` is an `if` in the false body) -/
@@ -67,6 +71,14 @@ inductive Stmt where
   deriving Repr
 
 abbrev ACode := List (Instr × AbsState)
+
+/-- relative jump targets made absolute -/
+def shift (b : Nat) : Instr → Instr
+  | .jump t => .jump (b + t)
+  | .jumpIfFalse t => .jumpIfFalse (b + t)
+  | .jumpIfFalseOrPop t => .jumpIfFalseOrPop (b + t)
+  | .jumpIfTrueOrPop t => .jumpIfTrueOrPop (b + t)
+  | i => i
 
 def others (n : Nat) (σ : AbsState) : ACode := List.replicate n (.other, σ)
 
@@ -116,6 +128,7 @@ def size (sc : List Scope) (hl : Bool) : Stmt → Nat
   | .skip => 0
   | .seq a b => size sc hl a + size sc hl b
   | .simple is => is.length
+  | .flat is => is.length
   | .ifS n t => n + 1 + size sc hl t
   | .ifElse n t e => n + 1 + size sc hl t + 1 + size sc hl e
   | .forS _ _ npre nt body => npre + 2 + nt + size [] true body + 1 + 1
@@ -133,6 +146,7 @@ def comp (Γ : Ctx) (b : Nat) (σ : AbsState) : Stmt → ACode
   | .skip => []
   | .seq a c => comp Γ b σ a ++ comp Γ (b + size Γ.scopes Γ.loop.isSome a) σ c
   | .simple is => is.map (fun i => (i, σ))
+  | .flat is => is.map (fun i => (shift b i, σ))
   | .ifS n t =>
     others n σ ++ (.jumpIfFalse (b + n + 1 + size Γ.scopes Γ.loop.isSome t), σ) :: comp Γ (b + n + 1) σ t
   | .ifElse n t e =>
@@ -191,11 +205,23 @@ def simpleInstr : Instr → Bool
   | .fastRecurse => true
   | _ => false
 
+/-- what an expression may consist of: state-preserving instructions and jumps within it -/
+def flatInstr (len : Nat) : Instr → Bool
+  | .other => true
+  | .callFunction => true
+  | .fastRecurse => true
+  | .jump t => decide (t ≤ len)
+  | .jumpIfFalse t => decide (t ≤ len)
+  | .jumpIfFalseOrPop t => decide (t ≤ len)
+  | .jumpIfTrueOrPop t => decide (t ≤ len)
+  | _ => false
+
 /-- the parser's `in_loop` discipline (and the fragment restriction on `simple`) -/
 def ok (inLoop : Bool) : Stmt → Bool
   | .skip => true
   | .seq a b => ok inLoop a && ok inLoop b
   | .simple is => is.all simpleInstr
+  | .flat is => is.all (flatInstr is.length)
   | .ifS _ t => ok inLoop t
   | .ifElse _ t e => ok inLoop t && ok inLoop e
   | .forS _ _ _ _ body => ok true body
